@@ -27,90 +27,11 @@ def plan(tier: str, seed: int) -> List[Dict[str, Any]]:
     return out
 
 
-def corpus_rows() -> List[Dict[str, Any]]:
-    import csv
-
-    from fjverif.common import REPO_ROOT
-
-    tables = REPO_ROOT / 'tests' / 'tests_tables'
-    compiled: Dict[str, List[str]] = {}
-    rows: List[Dict[str, Any]] = []
-    for name in ('test_compile_fast.csv', 'test_compile_medium.csv', 'test_compile_hexlib.csv'):
-        if (tables / name).exists():
-            for r in csv.reader(open(tables / name)):
-                if r:
-                    r = [x.strip() for x in r]
-                    compiled[r[0]] = r
-    for name in ('test_run_fast.csv', 'test_run_medium.csv', 'test_run_hexlib.csv'):
-        if (tables / name).exists():
-            for r in csv.reader(open(tables / name)):
-                if r:
-                    r = [x.strip() for x in r]
-                    if r[0] in compiled:
-                        c = compiled[r[0]]
-                        rows.append({'name': r[0], 'files': [str(REPO_ROOT / p.strip()) for p in c[1].split('|')], 'w': int(c[3]),
-                                     'stl': c[6] == 'True', 'input': str(REPO_ROOT / r[2]) if r[2] else None})
-    return rows
+corpus_rows = enginecmp.corpus_rows
 
 
 def shard_corpus(spec: Dict[str, Any], journal: Any) -> Dict[str, Any]:
-    """real programs (assembled by the tree under test, real stl tables and pointer code) on the three engines, judged by
-    the reference machine run on the image the reader loads."""
-    import contextlib
-    import io
-    from pathlib import Path
-
-    import flipjump
-    from flipjump.fjm.fjm_consts import FJMVersion
-    from flipjump.fjm.fjm_reader import Reader
-
-    from fjverif.refmachine import RefMachine
-
-    rng = rng_for(spec['seed'], PROPERTY, 'corpus', spec['shard'])
-    counters: Dict[str, Any] = {}
-    violations: List[Dict[str, Any]] = []
-    hashes: List[str] = []
-    rows = corpus_rows()[spec['shard']::spec['shards']]
-    rng.shuffle(rows)
-    Device = engines.make_recording_device()
-    for row in rows[:spec['programs']]:
-        out = engines.tmpdir() / 'corpus.fjm'
-        try:
-            with contextlib.redirect_stdout(io.StringIO()):
-                flipjump.assemble([Path(f) for f in row['files']], out, memory_width=row['w'], use_stl=row['stl'],
-                                  fjm_version=FJMVersion(rng.randrange(4)), print_time=False, warning_as_errors=False)
-        except flipjump.FlipJumpException:
-            counters['corpus_not_assembled'] = counters.get('corpus_not_assembled', 0) + 1
-            continue
-        reader = Reader(out)
-        stdin = Path(row['input']).read_bytes() if row['input'] else b''
-        ref = RefMachine(row['w'], [(sg.segment_start, sg.segment_length) for sg in reader.memory_segments],
-                         {k: v for k, v in reader.memory.items() if v}, stdin, track=False)
-        ref.run(2_500_000)
-        if ref.cause == 'cut':
-            counters['corpus_too_long_for_reference'] = counters.get('corpus_too_long_for_reference', 0) + 1
-            continue
-        counters['corpus_programs'] = counters.get('corpus_programs', 0) + 1
-        counters['corpus_reference_ops'] = counters.get('corpus_reference_ops', 0) + ref.ops
-        for engine in ('native', 'fast', 'featured'):
-            if engine == 'featured' and ref.ops > 400_000:
-                continue
-            journal.note({'corpus': row['name'], 'engine': engine})
-            device = Device(stdin)
-            obs = engines.run_engine(out, {'engine': engine}, device, watchdog_s=300)
-            counters['monitor_evaluations'] = counters.get('monitor_evaluations', 0) + 1
-            got = (obs['cause'], obs['ops'], obs['fault'], [tuple(e) for e in device.log])
-            want = (ref.cause, ref.ops, ref.fault_address, ref.io_log)
-            if got != want:
-                field = next(n for n, a, b in zip(('cause', 'ops', 'fault-address', 'io-log'), got, want) if a != b)
-                violations.append({'key': f'corpus/{engine}/{field}',
-                                   'what': f'{row["name"]} on {engine}: {field} differs from the reference '
-                                           f'({got[0]}/{got[1]} vs {want[0]}/{want[1]})',
-                                   'replay': {'kind': 'corpus', 'program': row['name'], 'files': row['files'], 'engine': engine}})
-        hashes.append('corpus:' + row['name'])
-    engines.cleanup_tmpdir()
-    return {'counters': counters, 'violations': violations, 'hashes': hashes, 'samples': [],
-            'evaluations': counters.get('monitor_evaluations', 0)}
+    return enginecmp.shard_corpus(spec, journal, PROPERTY, [{'engine': 'native'}, {'engine': 'fast'}, {'engine': 'featured'}], check_memory=False)
 
 
 def run_shard(spec: Dict[str, Any], journal: Any) -> Dict[str, Any]:
